@@ -34,6 +34,10 @@ type findScen struct {
 	Through bool `json:"through"`
 	// the level the unrelated directory hangs off (-2: directly off the sandbox root, next to the chain)
 	UA int `json:"ua"`
+	// name of the unrelated directory relative to the chain directory it stands next to: "" = `u`; "pfx" = that sibling's name
+	// plus a letter (the chain directory's path is a proper STRING prefix of the unrelated one's: proj / project); "short" = the
+	// sibling's name minus its last letter (the other way round).  A walk that decides "above" by comparing spellings confuses them.
+	UName string `json:"uname"`
 }
 
 type findRec struct {
@@ -201,6 +205,7 @@ func findHandle(root string, line []byte) any {
 	os.Chdir("/")
 	os.RemoveAll(filepath.Join(root, "c"))
 	os.RemoveAll(filepath.Join(root, "u"))
+	os.RemoveAll(filepath.Join(root, "cx"))
 	paths := map[int]string{-2: "/"}
 	p := filepath.Join(root, "c")
 	for l, d := range s.Levels {
@@ -217,10 +222,21 @@ func findHandle(root string, line []byte) any {
 		}
 	}
 	// the unrelated directory: next to the chain, or inside one of its levels
-	paths[-1] = filepath.Join(root, "u")
+	uparent, sibling := root, "c"
 	if s.UA >= 0 && s.UA < len(s.Levels) {
-		paths[-1] = filepath.Join(paths[s.UA], "u")
+		uparent, sibling = paths[s.UA], ""
+		if s.UA+1 < len(s.Levels) {
+			sibling = filepath.Base(paths[s.UA+1])
+		}
 	}
+	uname := "u"
+	switch {
+	case s.UName == "pfx" && sibling != "":
+		uname = sibling + "x"
+	case s.UName == "short" && len(sibling) > 1:
+		uname = sibling[:len(sibling)-1]
+	}
+	paths[-1] = filepath.Join(uparent, uname)
 	if err := populate(paths[-1], s.U, true, s.ID+7); err != nil {
 		return map[string]any{"id": s.ID, "outcome": "driver-error", "err": err.Error()}
 	}
